@@ -7,6 +7,7 @@ import (
 	"io"
 	"net"
 	"os"
+	"strings"
 	"sync"
 	"sync/atomic"
 	"time"
@@ -134,6 +135,7 @@ func c18Gen(tier string, seed int64) []fw.Case {
 				"write-idle-expiry-then-reset-zero", "write-idle-expiry-then-reset-future", "write-past-deadline-then-reset", "write-active-expiry",
 				"both-idle-expiry-setdeadline", "read-deadline-moved-while-blocked", "read-future-deadline-not-reached", "write-idle-expiry-then-only-read-reset",
 				"read-idle-expiry-with-partial-message", "write-idle-expiry-empty-write",
+				"read-active-past-deadline", "write-active-past-deadline",
 			} {
 				add(c18Desc{Kind: "deadline", Role: role, DL: sc}, fmt.Sprintf("deadline/%s/%s", role, sc))
 			}
@@ -308,7 +310,11 @@ func c18StreamRaw(r *fw.R, d c18Desc) {
 			comp := p.Deflate && rng.Bool()
 			wp := buf
 			if comp {
-				wp = def.Message(buf, 6, wire.EndSync)
+				end := wire.EndSync
+				if rng.Intn(3) == 0 {
+					end = wire.EndBFinal // the decompressor then reports the last bytes together with the end of the stream
+				}
+				wp = def.Message(buf, 6, end)
 			}
 			for _, f := range fragments(rng, opOf(typ), comp, wp, 1+rng.Intn(3)) {
 				peer.Send(f)
@@ -527,7 +533,7 @@ func c18Deadline(r *fw.R, d c18Desc) {
 	canaryMax.Store(0)
 	lib2peer := xport.Plan{NoTap: true}
 	writeSide := len(d.DL) > 5 && d.DL[:5] == "write"
-	if d.DL == "write-active-expiry" {
+	if d.DL == "write-active-expiry" || d.DL == "write-active-past-deadline" {
 		lib2peer.Capacity = 2000
 	}
 	c, _, peerEnd, err := libConn(d.Role, wire.Params{}, 0, lib2peer, xport.Plan{NoTap: true})
@@ -541,7 +547,7 @@ func c18Deadline(r *fw.R, d c18Desc) {
 	c18Branches.Store(c, obs)
 	defer c18Branches.Delete(c)
 	peer := newRawPeer(peerEnd, d.Role, wire.Params{}, d.Seed)
-	if d.DL != "write-active-expiry" {
+	if d.DL != "write-active-expiry" && d.DL != "write-active-past-deadline" {
 		peer.Start()
 	}
 	ctx, cancel := context.WithTimeout(context.Background(), 60*time.Second)
@@ -742,7 +748,7 @@ func c18Deadline(r *fw.R, d c18Desc) {
 		}
 		nc.SetReadDeadline(time.Time{})
 		roundTrip("future")
-	case "read-active-expiry", "write-active-expiry", "read-deadline-moved-while-blocked":
+	case "read-active-expiry", "write-active-expiry", "read-deadline-moved-while-blocked", "read-active-past-deadline", "write-active-past-deadline":
 		res := make(chan error, 1)
 		t0 := time.Now()
 		if writeSide {
@@ -760,6 +766,9 @@ func c18Deadline(r *fw.R, d c18Desc) {
 		if d.DL == "read-deadline-moved-while-blocked" {
 			nc.SetReadDeadline(time.Now().Add(10 * time.Second))
 			nc.SetReadDeadline(time.Now().Add(30 * time.Millisecond))
+		} else if strings.HasSuffix(d.DL, "past-deadline") {
+			// the usual way to abort a blocked call: a deadline that is already over
+			set(writeSide, time.Now().Add(-time.Second))
 		} else {
 			set(writeSide, time.Now().Add(30*time.Millisecond))
 		}
@@ -793,7 +802,7 @@ func c18Deadline(r *fw.R, d c18Desc) {
 		closedBy := time.Now().Add(3 * time.Second)
 		closed := false
 		for time.Now().Before(closedBy) {
-			if libClosedNoDrain(peerEnd, d.DL != "write-active-expiry") {
+			if libClosedNoDrain(peerEnd, true) {
 				closed = true
 				break
 			}
